@@ -17,9 +17,11 @@
 #include <atomic>
 #include <cstdint>
 #include <cstring>
+#include <deque>
 #include <functional>
 #include <iterator>
 #include <memory>
+#include <string>
 #include <utility>
 #include <vector>
 
@@ -52,6 +54,11 @@ void run_rec_s(pbt::Source& src, const Cfg& cfg);
 void run_rec_u(pbt::Source& src, const Cfg& cfg);
 void run_int_s(pbt::Source& src, const Cfg& cfg);
 void run_int_u(pbt::Source& src, const Cfg& cfg);
+// target pmerge_iters (C07_it_*.cpp): `kind` selects the (input iterator kind, output iterator kind), see ITK_LABEL
+void run_it_rec_s(pbt::Source& src, const Cfg& cfg, int kind);
+void run_it_rec_u(pbt::Source& src, const Cfg& cfg, int kind);
+void run_it_recs_s(pbt::Source& src, const Cfg& cfg, int kind);
+void run_it_recs_u(pbt::Source& src, const Cfg& cfg, int kind);
 
 static const tlx::MultiwayMergeAlgorithm ALG[4] = {tlx::MWMA_LOSER_TREE_COMBINED, tlx::MWMA_LOSER_TREE, tlx::MWMA_LOSER_TREE_SENTINEL,
                                                    tlx::MWMA_BUBBLE};
@@ -75,6 +82,15 @@ struct Rec {
     int32_t tag;
 };
 static_assert(sizeof(Rec) == 16, "Rec is 16 bytes");
+
+//! record owning a std::string longer than the small-string buffer (non-trivial copy, destructive move): a merge that
+//! moves from the inputs, or keeps using a moved-from temporary, shows up as wrong contents (target pmerge_iters)
+struct RecS {
+    int32_t key = 0;
+    int32_t seq = 0;
+    int32_t pos = 0;
+    std::string tag;
+};
 
 static const int POISON_KEY = -2000000007;
 
@@ -101,6 +117,22 @@ struct Tr<Rec> {
     static bool same(const Rec& a, const Rec& b) { return a.key == b.key && a.pos == b.pos && a.seq == b.seq && a.tag == b.tag; }
 };
 
+template <>
+struct Tr<RecS> {
+    static constexpr bool ident = true;
+    static constexpr const char* name = "recs(owning std::string)";
+    static RecS make(int key, int seq, int pos) {
+        RecS r;
+        r.key = key, r.seq = seq, r.pos = pos;
+        r.tag = "key=" + std::to_string(key) + ";seq=" + std::to_string(seq) + ";pos=" + std::to_string(pos) + ";pad-beyond-the-sso-buffer";
+        return r;
+    }
+    static int key(const RecS& e) { return e.key; }
+    static int seq(const RecS& e) { return e.seq; }
+    static int pos(const RecS& e) { return e.pos; }
+    static bool same(const RecS& a, const RecS& b) { return a.key == b.key && a.pos == b.pos && a.seq == b.seq && a.tag == b.tag; }
+};
+
 //! stateful comparator by key only; used concurrently by the merge threads (read-only state)
 template <class E>
 struct DirCmp {
@@ -111,6 +143,24 @@ struct DirCmp {
     bool operator()(const E& a, const E& b) const {
         if (salt != 0x5a17) pbt::fatal("C07/comparator-lost", "merge used a comparator that is not a copy of the one passed");
         return desc ? Tr<E>::key(b) < Tr<E>::key(a) : Tr<E>::key(a) < Tr<E>::key(b);
+    }
+};
+
+//! comparator OWNING state with a non-trivial copy / move (target pmerge_iters): direction in a heap vector, key
+//! projection in a std::function, a std::string longer than the small-string buffer as canary. Read-only use from the
+//! merge threads; a moved-from or default-constructed copy being called is C07/comparator-lost.
+template <class E>
+struct OwnCmp {
+    std::string canary;
+    std::vector<signed char> dir;
+    std::function<int(const E&)> proj;
+    static const char* expected() { return "C07-owning-comparator-canary-longer-than-sso"; }
+    explicit OwnCmp(bool d) : canary(expected()), dir(1, (signed char)d), proj([](const E& e) { return Tr<E>::key(e); }) {}
+    OwnCmp() = default;
+    bool operator()(const E& a, const E& b) const {
+        if (canary != expected() || dir.size() != 1 || !proj)
+            pbt::fatal("C07/comparator-lost", "merge used a comparator that is not a (live) copy of the one passed: moved-from or default-constructed");
+        return dir[0] ? proj(b) < proj(a) : proj(a) < proj(b);
     }
 };
 
@@ -136,6 +186,30 @@ struct OutBuf {
         cnt[(size_t)idx].fetch_add(1, std::memory_order_relaxed);
         data[(size_t)idx] = v; // plain store: two threads writing one cell is a data race TSan sees
     }
+    void layout(uint64_t) {}
+    const E& cell(size_t idx) const { return data[idx]; } // idx counts from the first guard cell
+};
+
+//! plain (non-counting) output buffer in an arbitrary container, written through the container's own iterators or
+//! reverse iterators (target pmerge_iters): guard cells on both sides, deque begin moved off the block start
+template <class E, class Cont, bool Rev>
+struct OutBufC {
+    Cont data; // G guard cells, length cells, G guard cells (Rev: stored back to front)
+    std::unique_ptr<std::atomic<unsigned>[]> cnt; // unused (null): keeps the oracle code uniform
+    std::ptrdiff_t G = 0;
+    std::atomic<long> outside{0};
+    std::atomic<long> first_outside{0};
+    E poison;
+    OutBufC(std::ptrdiff_t length, std::ptrdiff_t guard, const E& p) : data((size_t)(length + 2 * guard), p), G(guard), poison(p) {}
+    void layout(uint64_t salt) {
+        if constexpr (std::is_same<Cont, std::deque<E>>::value) {
+            const size_t blk = std::max<size_t>(1, 512 / sizeof(E)), off = (size_t)(salt % (blk + 3)), n = data.size();
+            Cont d(n + off, poison);
+            for (size_t j = 0; j < off; ++j) Rev ? d.pop_back() : d.pop_front();
+            data.swap(d);
+        }
+    }
+    const E& cell(size_t idx) const { return Rev ? data[data.size() - 1 - idx] : data[idx]; }
 };
 
 template <class E>
@@ -193,7 +267,13 @@ template <>
 struct IO<Rec> {
     typedef std::vector<Rec>::iterator In;
     typedef CountIt<Rec> Out;
+    typedef std::vector<Rec> Store;
+    typedef OutBuf<Rec> OB;
+    typedef DirCmp<Rec> Cmp;
     static constexpr bool counting = true;
+    static constexpr const char* label = nullptr;
+    static void fill(Store& s, const std::vector<Rec>& logical, uint64_t) { s = logical; }
+    static const Rec& at(const Store& s, size_t j) { return s[j]; }
     static In begin(std::vector<Rec>& v) { return v.begin(); }
     static Out target(OutBuf<Rec>& b) { return Out(&b, 0); }
     static std::ptrdiff_t ret_index(const Out& r, OutBuf<Rec>&) { return r.index(); }
@@ -202,10 +282,103 @@ template <>
 struct IO<int> {
     typedef int* In;
     typedef int* Out;
+    typedef std::vector<int> Store;
+    typedef OutBuf<int> OB;
+    typedef DirCmp<int> Cmp;
     static constexpr bool counting = false;
+    static constexpr const char* label = nullptr;
+    static void fill(Store& s, const std::vector<int>& logical, uint64_t) { s = logical; }
+    static const int& at(const Store& s, size_t j) { return s[j]; }
     static In begin(std::vector<int>& v) { return v.data(); }
     static Out target(OutBuf<int>& b) { return b.data.data() + b.G; }
     static std::ptrdiff_t ret_index(const Out& r, OutBuf<int>& b) { return r - (b.data.data() + b.G); }
+};
+
+// ---- iterator kinds of target pmerge_iters (any element type E); the comparator is the owning one
+static constexpr const char* const ITK_LABEL[4] = {"in=deque,out=counting", "in=reverse_vector,out=counting", "in=vector,out=deque", "in=deque,out=reverse_vector"};
+
+//! std::deque storage whose begin is (usually) not at a block start
+template <class E>
+struct DequeStore {
+    std::deque<E> d;
+    size_t off = 0;
+    void fill(const std::vector<E>& logical, uint64_t salt) {
+        const size_t blk = std::max<size_t>(1, 512 / sizeof(E));
+        off = (size_t)(salt % (blk + 3));
+        if ((salt >> 20) & 1) {
+            for (size_t j = logical.size(); j-- > 0;) d.push_front(logical[j]);
+            for (size_t j = 0; j < off; ++j) d.push_front(logical.empty() ? E() : logical[0]);
+        } else {
+            for (size_t j = 0; j < off; ++j) d.push_back(logical.empty() ? E() : logical[0]);
+            for (const E& e : logical) d.push_back(e);
+        }
+        for (size_t j = 0; j < off; ++j) d.pop_front();
+    }
+};
+//! inputs in std::deque, output through the counting iterator
+template <class E>
+struct IODequeIn {
+    typedef typename std::deque<E>::iterator In;
+    typedef CountIt<E> Out;
+    typedef DequeStore<E> Store;
+    typedef OutBuf<E> OB;
+    typedef OwnCmp<E> Cmp;
+    static constexpr bool counting = true;
+    static constexpr const char* label = ITK_LABEL[0];
+    static void fill(Store& s, const std::vector<E>& logical, uint64_t salt) { s.fill(logical, salt); }
+    static const E& at(const Store& s, size_t j) { return s.d[j]; }
+    static In begin(Store& s) { return s.d.begin(); }
+    static Out target(OB& b) { return Out(&b, 0); }
+    static std::ptrdiff_t ret_index(const Out& r, OB&) { return r.index(); }
+};
+//! inputs read through std::reverse_iterator over a vector holding the sequence back to front (the vector is sorted
+//! descending w.r.t. the comparator; a sentinel is physical element 0); output through the counting iterator
+template <class E>
+struct IORevIn {
+    typedef std::reverse_iterator<typename std::vector<E>::iterator> In;
+    typedef CountIt<E> Out;
+    typedef std::vector<E> Store;
+    typedef OutBuf<E> OB;
+    typedef OwnCmp<E> Cmp;
+    static constexpr bool counting = true;
+    static constexpr const char* label = ITK_LABEL[1];
+    static void fill(Store& s, const std::vector<E>& logical, uint64_t) { s.assign(logical.rbegin(), logical.rend()); }
+    static const E& at(const Store& s, size_t j) { return s[s.size() - 1 - j]; }
+    static In begin(Store& s) { return In(s.end()); }
+    static Out target(OB& b) { return Out(&b, 0); }
+    static std::ptrdiff_t ret_index(const Out& r, OB&) { return r.index(); }
+};
+//! inputs in vectors, output written through std::deque iterators (guard cells, begin off the block start)
+template <class E>
+struct IODequeOut {
+    typedef typename std::vector<E>::iterator In;
+    typedef typename std::deque<E>::iterator Out;
+    typedef std::vector<E> Store;
+    typedef OutBufC<E, std::deque<E>, false> OB;
+    typedef OwnCmp<E> Cmp;
+    static constexpr bool counting = false;
+    static constexpr const char* label = ITK_LABEL[2];
+    static void fill(Store& s, const std::vector<E>& logical, uint64_t) { s = logical; }
+    static const E& at(const Store& s, size_t j) { return s[j]; }
+    static In begin(Store& s) { return s.begin(); }
+    static Out target(OB& b) { return b.data.begin() + b.G; }
+    static std::ptrdiff_t ret_index(const Out& r, OB& b) { return r - (b.data.begin() + b.G); }
+};
+//! inputs in std::deque, output written through std::reverse_iterator over a vector
+template <class E>
+struct IORevOut {
+    typedef typename std::deque<E>::iterator In;
+    typedef std::reverse_iterator<typename std::vector<E>::iterator> Out;
+    typedef DequeStore<E> Store;
+    typedef OutBufC<E, std::vector<E>, true> OB;
+    typedef OwnCmp<E> Cmp;
+    static constexpr bool counting = false;
+    static constexpr const char* label = ITK_LABEL[3];
+    static void fill(Store& s, const std::vector<E>& logical, uint64_t salt) { s.fill(logical, salt); }
+    static const E& at(const Store& s, size_t j) { return s.d[j]; }
+    static In begin(Store& s) { return s.d.begin(); }
+    static Out target(OB& b) { return Out(b.data.end()) + b.G; }
+    static std::ptrdiff_t ret_index(const Out& r, OB& b) { return r - (Out(b.data.end()) + b.G); }
 };
 
 // ---------------------------------------------------------------- the call
@@ -252,15 +425,15 @@ static const char* const ENTRY_NAME[2][3] = {
 
 // ---------------------------------------------------------------- one case
 
-template <class E, bool Stable>
+template <class E, bool Stable, class IOK = IO<E>>
 void run_case(pbt::Source& src, const Cfg& cfg_in) {
     Cfg cfg = cfg_in; // the scale classes adjust threads / oversampling (cost bound) and minimal_k / minimal_n below
     using T = Tr<E>;
-    using In = typename IO<E>::In;
-    using Out = typename IO<E>::Out;
+    using In = typename IOK::In;
+    using Out = typename IOK::Out;
     const bool stable = Stable, sent = cfg.entry == 1, desc = cfg.desc;
     auto kless = [desc](int a, int b) { return desc ? b < a : a < b; };
-    DirCmp<E> cmp(desc);
+    typename IOK::Cmp cmp(desc);
 
     // ---- shape
     const bool scale = cfg.scale != 0;
@@ -423,32 +596,36 @@ void run_case(pbt::Source& src, const Cfg& cfg_in) {
     par = gate_parallel() && total > 0;
     const std::ptrdiff_t teff = par ? std::min<std::ptrdiff_t>(cfg.threads, total) : 1; // threads after clamping
 
-    // ---- build the inputs: one exact-size heap block per sequence (ASan red zone right behind it)
-    std::vector<std::vector<E>> bufs(k);
+    // ---- build the inputs: the logical cells, then one store per sequence (vector kinds: one exact-size heap block
+    // per sequence, ASan red zone right behind it; pmerge_iters: deque / reversed vector, see the IO kinds)
+    std::vector<std::vector<E>> orig(k);
     for (int i = 0; i < k; ++i) {
-        bufs[i].resize((size_t)n[i] + (sent ? 1 : 0));
-        for (int j = 0; j < n[i]; ++j) bufs[i][j] = T::make(keys[i][j], i, j);
+        orig[i].resize((size_t)n[i] + (sent ? 1 : 0));
+        for (int j = 0; j < n[i]; ++j) orig[i][j] = T::make(keys[i][j], i, j);
         if (sent) {
             // documented precondition of the *_sentinels entry points: one more element behind each
             // sequence that is strictly greater (w.r.t. the comparator) than every real element
             int off = (i * sentvary) % 3;
             int sk = desc ? kmin - 1 - off : kmax + 1 + off;
-            bufs[i][n[i]] = T::make(sk, i, n[i]);
+            orig[i][n[i]] = T::make(sk, i, n[i]);
         }
     }
-    const std::vector<std::vector<E>> orig = bufs;
+    uint64_t layout = seed ^ ((uint64_t)total << 20) ^ ((uint64_t)k << 8) ^ (uint64_t)cfg.threads; // lay-out only (deque offsets)
+    std::vector<typename IOK::Store> bufs(k);
+    for (int i = 0; i < k; ++i) IOK::fill(bufs[i], orig[i], splitmix(layout) >> 8);
     std::vector<std::pair<In, In>> seqs(k);
     std::vector<In> base(k);
     for (int i = 0; i < k; ++i) {
-        base[i] = IO<E>::begin(bufs[i]);
+        base[i] = IOK::begin(bufs[i]);
         seqs[i] = std::make_pair(base[i], base[i] + n[i]);
     }
 
     // ---- output
     const std::ptrdiff_t G = 3;
     const E poison = T::make(POISON_KEY, 250, 60000);
-    OutBuf<E> ob(length, G, poison);
-    Out target = IO<E>::target(ob);
+    typename IOK::OB ob(length, G, poison);
+    ob.layout(splitmix(layout) >> 8);
+    Out target = IOK::target(ob);
 
     // reference: stable merge by (key, seq, pos)
     struct RefE {
@@ -496,7 +673,18 @@ void run_case(pbt::Source& src, const Cfg& cfg_in) {
     pbt::label(cfg.entry == 0 ? "entry=frontend" : cfg.entry == 1 ? "entry=frontend_sentinels" : "entry=base");
     pbt::label(cfg.sampling ? "split=sampling" : "split=exact");
     pbt::label(desc ? "cmp=greater" : "cmp=less");
-    pbt::label(T::ident ? "type=rec/counting_out" : "type=int/raw_out");
+    if (IOK::label == nullptr) pbt::label(T::ident ? "type=rec/counting_out" : "type=int/raw_out");
+    else {
+        pbt::label(IOK::label);
+        pbt::label(std::is_same<E, Rec>::value ? "type=rec16" : "type=recs_owning_string");
+        pbt::label("cmp_owning_state");
+        const int blk = (int)std::max<size_t>(1, 512 / sizeof(E));
+        int longseqs = 0;
+        for (int i = 0; i < k; ++i) longseqs += n[i] > blk;
+        if (longseqs >= 1) pbt::label("seq_longer_than_512B_block");
+        if (longseqs >= 2) pbt::label("2+_seqs_longer_than_block");
+        if (length > blk) pbt::label("output_longer_than_512B_block");
+    }
     pbt::label(cfg.gate == 0 ? "gate=force_parallel" : cfg.gate == 1 ? "gate=default(big)" : cfg.gate == 2 ? "gate=force_sequential" : "gate=custom_min_k_n");
     pbt::label(par ? "path=parallel" : "path=sequential");
     pbt::label(cfg.threads == 1 ? "threads=1" : cfg.threads == 2 ? "threads=2" : cfg.threads <= 4 ? "threads=3..4" : cfg.threads <= 8 ? "threads=5..8" : cfg.threads <= 16 ? "threads=9..16" : cfg.threads <= 32 ? "threads=17..32" : cfg.threads <= 48 ? "threads=33..48" : "threads=49..64");
@@ -553,7 +741,7 @@ void run_case(pbt::Source& src, const Cfg& cfg_in) {
             PBT_LOG("  seq[" << i << "] n=" << n[i] << " keys:");
             for (int j = 0; j < n[i] && j < 48; ++j) PBT_LOG(" " << keys[i][j]);
             if (n[i] > 48) PBT_LOG(" ...");
-            if (sent) PBT_LOG(" | sentinel " << T::key(bufs[i][n[i]]));
+            if (sent) PBT_LOG(" | sentinel " << T::key(orig[i][n[i]]));
             PBT_LOG("\n");
         }
     }
@@ -572,12 +760,12 @@ void run_case(pbt::Source& src, const Cfg& cfg_in) {
     reset_globals();
 
     // ---- oracle
-    const std::ptrdiff_t retidx = IO<E>::ret_index(ret, ob);
+    const std::ptrdiff_t retidx = IOK::ret_index(ret, ob);
     if (pbt::verbose()) {
         PBT_LOG("  returned target+" << retidx << "\n  output:");
         for (std::ptrdiff_t j = 0; j < length && j < 96; ++j) {
-            const E& e = ob.data[(size_t)(G + j)];
-            if (T::ident) PBT_LOG(" " << T::key(e) << "@" << T::seq(e) << "." << T::pos(e) << (ob.cnt[(size_t)(G + j)] == 1 ? "" : "(!)"));
+            const E& e = ob.cell((size_t)(G + j));
+            if (T::ident) PBT_LOG(" " << T::key(e) << "@" << T::seq(e) << "." << T::pos(e) << (!IOK::counting || ob.cnt[(size_t)(G + j)] == 1 ? "" : "(!)"));
             else PBT_LOG(" " << T::key(e));
         }
         PBT_LOG("\n  advanced by:");
@@ -588,18 +776,18 @@ void run_case(pbt::Source& src, const Cfg& cfg_in) {
     PBT_CHECK(ob.outside.load() == 0, "C07/write-outside",
               ob.outside.load() << " assignment(s) outside the output window, first at target+" << ob.first_outside.load() << " (length " << length << ")");
     for (std::ptrdiff_t g = 0; g < G; ++g) {
-        bool wb = IO<E>::counting ? ob.cnt[(size_t)g] != 0 : !T::same(ob.data[(size_t)g], poison);
-        bool wa = IO<E>::counting ? ob.cnt[(size_t)(G + length + g)] != 0 : !T::same(ob.data[(size_t)(G + length + g)], poison);
+        bool wb = IOK::counting ? ob.cnt[(size_t)g] != 0 : !T::same(ob.cell((size_t)g), poison);
+        bool wa = IOK::counting ? ob.cnt[(size_t)(G + length + g)] != 0 : !T::same(ob.cell((size_t)(G + length + g)), poison);
         PBT_CHECK(!wb, "C07/write-outside", "cell target-" << (G - g) << " (before the output range) was written");
         PBT_CHECK(!wa, "C07/write-outside", "cell target+" << (length + g) << " (past the requested length " << length << ") was written");
     }
     for (std::ptrdiff_t j = 0; j < length; ++j) {
-        if (IO<E>::counting) {
+        if (IOK::counting) {
             unsigned c = ob.cnt[(size_t)(G + j)];
             PBT_CHECK(c != 0, "C07/unwritten", "output slot " << j << " of " << length << " was never written");
             PBT_CHECK(c == 1, "C07/written-twice", "output slot " << j << " of " << length << " was written " << c << " times");
         } else {
-            PBT_CHECK(!T::same(ob.data[(size_t)(G + j)], poison), "C07/unwritten", "output slot " << j << " of " << length << " was never written");
+            PBT_CHECK(!T::same(ob.cell((size_t)(G + j)), poison), "C07/unwritten", "output slot " << j << " of " << length << " was never written");
         }
     }
     PBT_CHECK(retidx == length, "C07/return", "returned iterator is target+" << retidx << ", expected target+" << length);
@@ -607,26 +795,26 @@ void run_case(pbt::Source& src, const Cfg& cfg_in) {
     std::vector<std::ptrdiff_t> taken(k, 0);
     if (T::ident) {
         for (std::ptrdiff_t j = 0; j < length; ++j) {
-            const E& e = ob.data[(size_t)(G + j)];
+            const E& e = ob.cell((size_t)(G + j));
             int s = T::seq(e), p = T::pos(e);
             PBT_CHECK(s >= 0 && s < k && p >= 0 && p < n[s] && T::same(e, orig[s][p]), "C07/not-an-input",
                       "output slot " << j << " holds (key " << T::key(e) << ", seq " << s << ", pos " << p << ") which is not an element of the inputs");
         }
         for (std::ptrdiff_t j = 0; j < length; ++j) {
-            const E& e = ob.data[(size_t)(G + j)];
+            const E& e = ob.cell((size_t)(G + j));
             PBT_CHECK(T::key(e) == ref[(size_t)j].key, "C07/keys",
                       "output slot " << j << " has key " << T::key(e) << ", the sequential merge has key " << ref[(size_t)j].key << " there");
         }
         if (stable)
             for (std::ptrdiff_t j = 0; j < length; ++j) {
-                const E& e = ob.data[(size_t)(G + j)];
+                const E& e = ob.cell((size_t)(G + j));
                 PBT_CHECK(T::seq(e) == ref[(size_t)j].seq && T::pos(e) == ref[(size_t)j].pos, "C07/stable-order",
                           "stable merge: output slot " << j << " is (key " << T::key(e) << ", seq " << T::seq(e) << ", pos " << T::pos(e)
                                                        << "), the stable sequential merge has (key " << ref[(size_t)j].key << ", seq "
                                                        << ref[(size_t)j].seq << ", pos " << ref[(size_t)j].pos << ") there");
             }
         for (std::ptrdiff_t j = 0; j < length; ++j) {
-            const E& e = ob.data[(size_t)(G + j)];
+            const E& e = ob.cell((size_t)(G + j));
             int s = T::seq(e), p = T::pos(e);
             PBT_CHECK(p == taken[s], "C07/prefix",
                       "output slot " << j << " is element " << p << " of sequence " << s << " but element " << taken[s]
@@ -639,7 +827,7 @@ void run_case(pbt::Source& src, const Cfg& cfg_in) {
                                   << " of its elements were emitted (length " << length << " of " << total << ")");
     } else {
         for (std::ptrdiff_t j = 0; j < length; ++j) {
-            const E& e = ob.data[(size_t)(G + j)];
+            const E& e = ob.cell((size_t)(G + j));
             PBT_CHECK(T::key(e) == ref[(size_t)j].key, "C07/keys",
                       "output slot " << j << " has key " << T::key(e) << ", the sequential merge has key " << ref[(size_t)j].key << " there");
         }
@@ -660,8 +848,19 @@ void run_case(pbt::Source& src, const Cfg& cfg_in) {
                                                                                    << ref[(size_t)j].key << ")");
     }
     for (int i = 0; i < k; ++i)
-        for (size_t j = 0; j < bufs[i].size(); ++j)
-            PBT_CHECK(T::same(bufs[i][j], orig[i][j]), "C07/input-modified", "input sequence " << i << " element " << j << " was modified");
+        for (size_t j = 0; j < orig[i].size(); ++j)
+            PBT_CHECK(T::same(IOK::at(bufs[i], j), orig[i][j]), "C07/input-modified", "input sequence " << i << " element " << j << " was modified");
+}
+
+//! target pmerge_iters: dispatch on the iterator kind
+template <class E, bool Stable>
+void run_iters(pbt::Source& src, const Cfg& cfg, int kind) {
+    switch (kind) {
+    case 0: run_case<E, Stable, IODequeIn<E>>(src, cfg); break;
+    case 1: run_case<E, Stable, IORevIn<E>>(src, cfg); break;
+    case 2: run_case<E, Stable, IODequeOut<E>>(src, cfg); break;
+    default: run_case<E, Stable, IORevOut<E>>(src, cfg); break;
+    }
 }
 
 } // namespace c07
